@@ -126,6 +126,49 @@ var etVariants = []etVariant{
 		p.SetGroundwaterSeries(r, 1, float64(r.Range(3, 30)), r.Range(1, 12))
 		return &proj.ETWeather{ET0: et0, YearFiles: true}
 	}, Opt: proj.Opt{Drain: true, MinLayers: 3}},
+	// ---- method / weather-column combinations in which no potential ET can be computed (appended: the older variants keep their index)
+	{Name: "no-method", Method: 0, Setup: func(r *vh.Rng, p *proj.Project) *proj.ETWeather {
+		// ETpot outside 1..5: no branch of the method chain is taken (water.go:135-205, 310-385)
+		p.Cfg["ETpot"] = []string{"0", "6", "6", "9"}[r.Intn(4)]
+		return nil
+	}, Opt: proj.Opt{Management: true}},
+	{Name: "et0-method-without-et0-column", Method: 5, Opt: proj.Opt{Management: true}}, // the CSV layout written by proj.Write has no ET0 column
+	{Name: "haude-without-satdeficit-column", Method: 1},                                // ... and no saturation-deficit column
+}
+
+func zeroText(s string) bool {
+	f, err := strconv.ParseFloat(strings.Trim(s, "\"'"), 64)
+	return err == nil && f == 0
+}
+
+// etRunStyle: rendering of config.yml of a generated ET run (proj.WriteConfigStyle), keyed by project.
+var etRunStyle = map[*proj.Project]int{}
+
+// etBoundaryConfig: configuration values at the edges of their ranges, drawn from a generator derived
+// from the run seed AFTER everything else (the projects of the older variants keep their other values).
+func etBoundaryConfig(seed uint64, p *proj.Project, v etVariant) {
+	r := vh.NewRng(seed ^ 0x3c6ef372fe94f82b)
+	if r.Chance(0.2) {
+		p.Cfg["KcFactorBareSoil"] = []string{"0", "0.05", "2.0", "2.0"}[r.Intn(4)]
+	}
+	if r.Chance(0.35) {
+		p.Cfg["CoastDistance"] = []string{"0", "49", "50", "51", "300"}[r.Intn(5)]
+	}
+	if r.Chance(0.12) {
+		p.Cfg["OrganicMatterMineralProportion"] = []string{"0", "1", "0.999"}[r.Intn(3)]
+	}
+	if r.Chance(0.2) {
+		p.Cfg["CO2method"] = []string{"0", "4"}[r.Intn(2)]
+	}
+	if r.Chance(0.08) {
+		p.Cfg["OutputIntervall"] = []string{"400", "5000"}[r.Intn(2)] // longer than the run: a daily file without records
+	}
+	if r.Chance(0.06) && len(p.GWSerie) == 0 {
+		p.SetEnd(p.Start().AddDays(r.Intn(3))) // a run of one to three days (plus the days up to the annual output date)
+	}
+	if r.Chance(0.2) {
+		etRunStyle[p] = r.Range(1, 4)
+	}
 }
 
 // etDailyCols: the verification output configuration of these runs.
@@ -253,6 +296,7 @@ func buildETProject(vi int, seed uint64, name string) (*proj.Project, *proj.ETWe
 	if v.Setup != nil {
 		w = v.Setup(r, p)
 	}
+	etBoundaryConfig(seed, p, v)
 	p.DailyCols = etDailyCols(p.N())
 	return p, w, v
 }
@@ -317,6 +361,11 @@ func etWholeRuns(c *vh.Ctx, nRuns int, c08, c06 bool) {
 			c.Note("cannot write project %s: %v", name, err)
 			continue
 		}
+		if err := p.WriteConfigStyle(root, etRunStyle[p]); err != nil {
+			c.Note("cannot rewrite config.yml of %s: %v", name, err)
+			continue
+		}
+		delete(etRunStyle, p)
 		if w != nil {
 			if err := p.WriteWeatherET(root, *w); err != nil {
 				c.Note("cannot write weather %s: %v", name, err)
@@ -332,6 +381,9 @@ func etWholeRuns(c *vh.Ctx, nRuns int, c08, c06 bool) {
 
 func runOneET(c *vh.Ctx, root string, p *proj.Project, v etVariant, vi int, seed uint64, st *etRunStats, c08, c06 bool) {
 	method := etMethodName[v.Method]
+	if method == "" {
+		method = "no-method"
+	}
 	n := p.N()
 	// field capacity per 10 cm layer as given explicitly in the soil file (0 = not explicit / PTF route)
 	var inputFC [21]float64
@@ -569,7 +621,10 @@ func runOneET(c *vh.Ctx, root string, p *proj.Project, v etVariant, vi int, seed
 			nonFiniteIn(w, ".water", &bad, 8)
 			nonFiniteIn(ns, ".nitro", &bad, 8)
 			nonFiniteIn(cs, ".crop", &bad, 8)
-			if len(bad) > 0 {
+			if len(bad) > 0 && baseField(bad[0]) == "SOC1" && zeroText(p.Cfg["OrganicMatterMineralProportion"]) {
+				// input class of its own: the mineralisable share of the soil organic N is configured as 0
+				viol("state-nonfinite:SOC1:OrganicMatterMineralProportion=0", fmt.Sprintf("non-finite state variable(s) at day end: %s — run.go:736 / nitro.go:408 divide the mineralisable organic N by OrganicMatterMineralProportion = 0 (0/0)", strings.Join(bad, ", ")), zeit, map[string]interface{}{"fields": bad})
+			} else if len(bad) > 0 {
 				viol("state-nonfinite:"+baseField(bad[0])+":"+method, fmt.Sprintf("non-finite state variable(s) at day end: %s", strings.Join(bad, ", ")), zeit, map[string]interface{}{"fields": bad})
 			}
 		},
